@@ -11,6 +11,7 @@ import (
 	"github.com/vektah/gqlparser/v2/gqlerror"
 
 	"github.com/99designs/gqlgen/graphql"
+	"github.com/99designs/gqlgen/graphql/handler/lru"
 	"github.com/99designs/gqlgen/zzsym"
 )
 
@@ -54,13 +55,18 @@ func Harness_C15_apq() {
 	}
 	a := AutomaticPersistedQuery{Cache: cache}
 	text := ""
-	if t := zzsym.Choice("text", 3); t > 0 {
-		text = c15Texts[t-1]
+	if t := zzsym.Choice("text", 5); t > 0 {
+		// {a}, {b}, and texts that are not empty but blank: they are texts (to be checked against the hash), not hash-only requests
+		text = []string{c15Texts[0], c15Texts[1], " ", "\n\t"}[t-1]
 	}
 	p := &graphql.RawParams{Query: text}
 	hashSent := ""
 	wellFormed := false
-	switch zzsym.Choice("ext", 17) {
+	switch zzsym.Choice("ext", 18) {
+	case 17:
+		// the blank text's own hash
+		hashSent, wellFormed = c15Hash(" "), true
+		p.Extensions = map[string]any{"persistedQuery": map[string]any{"sha256Hash": hashSent, "version": json.Number("1")}}
 	case 11, 12, 13, 14, 15, 16:
 		// near misses of the hash of {a}: other letter case, extra digits, trailing / leading junk, one digit short
 		ha := c15Hash(c15Texts[0])
@@ -246,4 +252,44 @@ func Harness_C15_concurrent() {
 		zzsym.Assert(c15Hash(v) == k, "the store maps a hash only to the text with that SHA-256")
 	}
 	zzsym.Reach("apq.concurrent")
+}
+
+// Harness_C15_concurrentLookups: two texts are registered in the real LRU
+// (graphql/handler/lru); then two clients send hash-only requests at the same
+// time (same or different hashes, after an optional earlier lookup that made
+// one of them the most recent hit): whatever the interleaving - preemptions
+// at locks and atomic operations included - each request resolves to the
+// text whose SHA-256 is the hash it sent.
+func Harness_C15_concurrentLookups() {
+	texts := []string{"{a}", "{b}"}
+	store := lru.New[string](8)
+	a := AutomaticPersistedQuery{Cache: store}
+	for _, t := range texts {
+		store.Add(context.Background(), c15Hash(t), t)
+	}
+	if w := zzsym.Choice("warm", 3); w > 0 {
+		store.Get(context.Background(), c15Hash(texts[w-1]))
+	}
+	type req struct {
+		hash, got string
+		err       *gqlerror.Error
+	}
+	r1 := &req{hash: c15Hash(texts[zzsym.Choice("r1", 2)])}
+	r2 := &req{hash: c15Hash(texts[zzsym.Choice("r2", 2)])}
+	var wg sync.WaitGroup
+	run := func(r *req) {
+		defer wg.Done()
+		ctx := graphql.WithOperationContext(context.Background(), &graphql.OperationContext{})
+		p := &graphql.RawParams{Extensions: map[string]any{"persistedQuery": map[string]any{"version": 1, "sha256Hash": r.hash}}}
+		r.err = a.MutateOperationParameters(ctx, p)
+		r.got = p.Query
+	}
+	wg.Add(2)
+	go run(r1)
+	go run(r2)
+	wg.Wait()
+	for _, r := range []*req{r1, r2} {
+		zzsym.Assert(r.err == nil && c15Hash(r.got) == r.hash, "a hash-only request resolves to the text with that SHA-256, whatever runs beside it")
+	}
+	zzsym.Reach("apq.lookups")
 }
